@@ -21,6 +21,9 @@ CLAIMED = {
  "C05": ("proptest: generated rule trees x generated sources, evaluated on every node by the implementation and by O-eval, an independent reference evaluator over raw tree-sitter nodes (differential against a reference model)",
          "Randomised exploration: ~10^4 (quick) to 3x10^5 (thorough) generated rule trees over all operators, stopBy kinds, field, An+B/reverse/ofRule, utilities and multi-key objects, each compared with the reference on every node of a small source; disagreements are localised to the smallest disagreeing sub-rule.",
          "Trusted: pattern leaves (delegated to Pattern, decided by C02/C03), regex crate, tree-sitter navigation primitives parent/child(i)/next_sibling/child_by_field_name.", "DESIGN.md §5 C05"),
+ "C06": ("proptest: generated (matcher, fix string/object with expansions, rewrite transforms with rewriters) x sources; validity predicates over every proposed edit + O-splice model + reference sibling search for expansion boundaries + reference splice for rewrite",
+         "Randomised exploration: 10^4 (quick) to 4x10^5 (thorough) cases in all languages incl. multi-byte, CRLF and syntax errors; every edit must be in bounds, on char boundaries, valid UTF-8, local to the match or exactly the expansion the rule reference gives; overlap-free edit lists must be ordered/disjoint and applying them must equal the splice model; rewrite results must equal the reference splice/join.",
+         "Trusted: the matcher itself (C01-C05 decide matching); rewriter sub-rules evaluated through the public Matcher API; zero-width sibling lists excluded from the exact expansion-boundary clause.", "DESIGN.md §5 C06"),
  "C07": ("proptest: templates (identity, wrapping, random token mixes) over real captures at generated site indentations vs. O-template, an independent reference of the template language and the indentation arithmetic (reference model + identity round-trip)",
          "Randomised exploration: 2x10^4 (quick) to 5x10^5 (thorough) (template, capture, site) cases in all languages; replacement must equal the reference byte for byte when captures are well indented, verbatim modulo leading spaces otherwise; rewriting a node to its own pattern must be a no-op.",
          "Trusted: bindings come from the construction of the pattern (C02 decides that the implementation binds the same spans); spaces-only indentation, lines within the 512-byte look-behind.", "DESIGN.md §5 C07"),
